@@ -68,6 +68,20 @@ pub fn ordered_search(db: &Database, queries: &[&str]) -> Vec<(String, String)> 
         .collect()
 }
 
+/// finding D19 is about results that tie in rank, key and text length (their order follows node ids): two ordered
+/// result lists differ *only* in that way iff they name the same (key, text length) at every position
+pub fn d19_explains(a: &str, b: &str) -> bool {
+    let class = |s: &str| -> Vec<String> {
+        s.lines()
+            .map(|l| match l.split_once('|') {
+                Some((k, t)) if !l.starts_with("## ") && !l.starts_with("search_order[") => format!("{}|{}", k, t.len()),
+                _ => l.to_string(),
+            })
+            .collect()
+    };
+    class(a) == class(b)
+}
+
 pub const QUERIES: &[&str] = &["", "alpha", "be", "zz"];
 
 /// after every step: incremental database vs a database freshly built from the current texts
@@ -95,7 +109,8 @@ pub fn oracle(h: &History) -> Option<(usize, String, bool)> {
         let b = ordered_search(&fresh, QUERIES);
         for ((name, x), (_, y)) in a.iter().zip(b.iter()) {
             if x != y {
-                return Some((i + 1, format!("{} after step {}: incremental {:?} vs fresh {:?}", name, i + 1, cut(x), cut(y)), true));
+                // order-only and explained by finding D19 (ties in rank, key and length)? anything else is a violation
+                return Some((i + 1, format!("{} after step {}: incremental {:?} vs fresh {:?}", name, i + 1, cut(x), cut(y)), d19_explains(x, y)));
             }
         }
     }
